@@ -75,3 +75,27 @@ class TypedOp(Command):
     def execute(self, **kwargs):
         EXEC_LOG.append(self.result_name)
         return ("typed", self.result_name, tuple((k, _val(kwargs[k])) for k in sorted(kwargs) if k != "Metadata"))
+
+
+class NoOut(Command):
+    """A plugin command that declares no output type and takes a typed result."""
+    inputs = {"A": params.ResultParameter(params.Parameter(), required=False), "L": params.ListParameter(params.ResultParameter(params.Parameter()), required=False)}
+
+    def execute(self, **kwargs):
+        EXEC_LOG.append(self.result_name)
+        return ("noout", self.result_name, tuple((k, _val(kwargs[k])) for k in sorted(kwargs) if k != "Metadata"))
+
+
+FLAKY = {"fail": False}
+
+
+class Flaky(Command):
+    """Fails while FLAKY['fail'] is set (an input that is repaired between two runs)."""
+    inputs = {"L": params.ListParameter(params.ResultParameter(), required=False)}
+    output = params.DataParameter()
+
+    def execute(self, **kwargs):
+        EXEC_LOG.append(self.result_name)
+        if FLAKY["fail"]:
+            raise IOError("input not available yet")
+        return ("flaky", self.result_name, tuple((k, _val(kwargs[k])) for k in sorted(kwargs) if k != "Metadata"))
